@@ -11,6 +11,11 @@ def main():
     res = []
     loaded = {}
     def dataset(c):
+        if c.get("ds_dir"):
+            if c["ds_dir"] not in loaded:
+                from radioactivedecay.decaydata import load_dataset
+                loaded[c["ds_dir"]] = load_dataset(c.get("ds", "rand"), c["ds_dir"], load_sympy=True)
+            return loaded[c["ds_dir"]]
         if c.get("ds") == "synth":
             if "synth" not in loaded:
                 from radioactivedecay.decaydata import load_dataset
